@@ -13,6 +13,7 @@ package main
 //	viewMethodCalls  every call of a Snapshot/segmentSnapshot method that (transitively) writes a *view*
 //	              field of its receiver (everything except the lock-protected refs / fieldTFRs)
 //	refCalls      the AddRef/DecRef/addRef/decRef call sites per function (the transcribed protocol)
+//	snapshotCloses   every Close() of a *Snapshot with the chain of enclosing conditions (release sites, one per path)
 //	closeThenReuse   methods of postingsIterator that Close() their receiver and then overwrite and keep it
 //	poolAccess, recycleCalls, iterSnapshotSets   the facts that keep a recycled postings iterator inside
 //	              the snapshot that built it
@@ -190,6 +191,14 @@ func (g *c04) typeOf(fn *c04fn, e ast.Expr) string {
 		if e.Op == token.AND {
 			if t := g.typeOf(fn, e.X); t != "" {
 				return "*" + t
+			}
+		}
+		if e.Op == token.ARROW { // receive from a channel
+			t := g.typeOf(fn, e.X)
+			for _, pre := range []string{"<-chan", "chan<-", "chan"} {
+				if strings.HasPrefix(t, pre) {
+					return strings.TrimPrefix(t, pre)
+				}
 			}
 		}
 		return ""
@@ -753,6 +762,61 @@ func genC04(ctx *Ctx) {
 	}
 	closeReuse = c04DedupSort(closeReuse)
 
+	// every Close() of a *Snapshot held by a local variable, with the chain of enclosing conditions: the
+	// release sites of the temporary references (events `release`), one per path
+	var snapCloses []c04Row
+	for _, n := range names {
+		fn := fns[n]
+		if fn.decl.Body == nil {
+			continue
+		}
+		var stack []ast.Node
+		ast.Inspect(fn.decl.Body, func(nd ast.Node) bool {
+			if nd == nil {
+				stack = stack[:len(stack)-1]
+				return true
+			}
+			stack = append(stack, nd)
+			call, ok := nd.(*ast.CallExpr)
+			if !ok {
+				return true
+			}
+			sel, ok := call.Fun.(*ast.SelectorExpr)
+			if !ok || sel.Sel.Name != "Close" || len(call.Args) != 0 || c04StripPtr(g.typeOf(fn, sel.X)) != "Snapshot" {
+				return true
+			}
+			var chain []string
+			for k := 0; k+1 < len(stack); k++ {
+				switch a := stack[k].(type) {
+				case *ast.IfStmt:
+					c := strings.ReplaceAll(g.pkg.Src(a.Cond), " ", "")
+					if stack[k+1] == ast.Node(a.Body) {
+						chain = append(chain, c)
+					} else if a.Else != nil && stack[k+1] == a.Else {
+						chain = append(chain, "!("+c+")")
+					}
+				case *ast.CaseClause:
+					if len(a.List) > 0 {
+						chain = append(chain, "case:"+strings.ReplaceAll(g.pkg.Src(a.List[0]), " ", ""))
+					} else {
+						chain = append(chain, "default")
+					}
+				case *ast.CommClause:
+					if a.Comm != nil {
+						chain = append(chain, "select:"+strings.ReplaceAll(g.pkg.Src(a.Comm), " ", ""))
+					} else {
+						chain = append(chain, "select:default")
+					}
+				case *ast.DeferStmt:
+					chain = append(chain, "defer")
+				}
+			}
+			snapCloses = append(snapCloses, c04Row{fn.name, g.pkg.Src(sel.X), strings.Join(chain, " > ")})
+			return true
+		})
+	}
+	sort.SliceStable(snapCloses, func(i, j int) bool { return snapCloses[i][0] < snapCloses[j][0] })
+
 	// closure: a method that calls a view-writing method on its own receiver is view-writing too
 	for changed := true; changed; {
 		changed = false
@@ -838,6 +902,7 @@ func genC04(ctx *Ctx) {
 	b.WriteString(c04LeanTable("fieldWrites", "(function, struct, field, class of the base object) — assignments outside composite literals", 4, fieldWrites))
 	b.WriteString(c04LeanTable("viewMethodCalls", "(caller, method that writes view fields of its receiver, class of the receiver at the call)", 3, viewCalls))
 	b.WriteString(c04LeanTable("refCalls", "(function, reference-count method, number of call sites) for AddRef/DecRef (wrappers) and addRef/decRef (snapshots)", 3, refCalls))
+	b.WriteString(c04LeanTable("snapshotCloses", "(function, snapshot expression, chain of enclosing conditions) for every Close() of a *Snapshot, in source order per function", 3, snapCloses))
 	b.WriteString(c04LeanTable("poolAccess", "(function, class of X) for every expression X.fieldTFRs", 2, poolAccess))
 	b.WriteString(c04LeanTable("recycleCalls", "(function, receiver expression, argument) of every call of recyclePostingsIterator", 3, recycleCalls))
 	b.WriteString(c04LeanTable("closeThenReuse", "(method of postingsIterator, receiver) that calls recv.Close() and overwrites *recv: the object is recycled while its user goes on using it", 2, closeReuse))
@@ -849,6 +914,7 @@ func genC04(ctx *Ctx) {
 	ctx.Summary["viewMethodCalls"] = len(viewCalls)
 	ctx.Summary["poolAccess"] = len(poolAccess)
 	ctx.Summary["refCalls"] = len(refCalls)
+	ctx.Summary["snapshotCloses"] = len(snapCloses)
 	ctx.Summary["closeThenReuse"] = len(closeReuse)
 	ctx.Summary["recycleCalls"] = len(recycleCalls)
 	ctx.Summary["functions_scanned"] = len(names)
